@@ -77,6 +77,9 @@ struct Args {
 }
 
 fn main() -> anyhow::Result<()> {
+    #[cfg(feature = "verif")]
+    rsbdd::verif::init_from_env();
+
     let wild_args = wild::args_os();
     let args_in = argfile::expand_args_from(wild_args, argfile::parse_fromfile, argfile::PREFIX)?;
     let args = Args::parse_from(args_in);
